@@ -74,6 +74,12 @@ impl builtins::Command for ExecCommand {
 
         let exec_error = cmd.exec();
 
+        // We are still here, so the exec failed -- but not before the standard library had
+        // prepared this very process for the new program, which includes resetting SIGPIPE
+        // to its default action. Put that back, or the next write to a closed pipe kills
+        // the shell.
+        brush_core::sys::signal::ignore_sigpipe()?;
+
         if exec_error.kind() == std::io::ErrorKind::NotFound {
             Ok(ExecutionExitCode::NotFound.into())
         } else {
